@@ -21,7 +21,11 @@ RULE = (
     "paths, error messages) with the reference executor run on event k as root value, and counts "
     "source events consumed; the four refusal classes (several root fields written directly or through fragments, no subscription resolver, "
     "non-subscription operation, runtime without streams) must raise the documented exception with "
-    "zero events consumed. Non-trivial = distinct stream with >= 2 events, an error on some event, or "
+    "zero events consumed. "
+    "A fifth of the worlds raise unexpected exceptions on some events (the consumer keeps "
+    "reading); a third of the schemas share root types; a repeated root field selects other "
+    "things under the same key.  "
+    "Non-trivial = distinct stream with >= 2 events, an error on some event, or "
     "a refusal case."
 )
 ASSUMPTIONS = ["results are consumed sequentially with `async for` (the documented usage)"]
